@@ -198,6 +198,10 @@ theorem convert_noPanic (v : GoVal) (t : ParamTy) : NoPanicRes (convert v t) := 
   · split
     · trivial
     · trivial
+    · refine NoPanicRes.bind ?_ (fun _ => trivial)
+      split
+      · exact fmtFloatF_noPanic _ _
+      · exact fmtFloatG_noPanic _ _
     · exact NoPanicRes.bind (sprint_noPanic _) (fun _ => trivial)
   · split
     · trivial
@@ -246,6 +250,7 @@ theorem convert_hasTy {v : GoVal} {t : ParamTy} {c : GoVal} (h : convert v t = .
   · split at h
     · cases h; exact ⟨_, rfl⟩
     · cases h
+    · obtain ⟨n, _, h⟩ := Res.bind_eq_ok h; cases h; exact ⟨_, rfl⟩
     · obtain ⟨n, _, h⟩ := Res.bind_eq_ok h; cases h; exact ⟨_, rfl⟩
   · split at h
     · cases h; exact ⟨_, rfl⟩
